@@ -147,6 +147,11 @@ func (fa *Facts) Run(visit Visitor) {
 			}
 		}
 	}
+	for _, e := range fa.AssumeMinLenOf {
+		if ln, ok, _ := fa.seqLen(e); ok && ln.Term != "" {
+			fa.in[entry].addLinLE(Lin{Off: 1}, ln, 0)
+		}
+	}
 	if fa.F.Type.Results != nil {
 		for _, fld := range fa.F.Type.Results.List {
 			for _, id := range fld.Names {
